@@ -507,15 +507,33 @@ Lemma k2_final : let w := prun (world0 false k2_nodes) k2_ops in
 Proof. vm_compute. done. Qed.
 
 (** * the release paths (queued pod event, resync, API release) never add an IP to a pool *)
-Definition wle (X : str) (w w' : world) : Prop := pfx_le X (w_ipam w) (w_ipam w').
+Definition wle (X : str) (w w' : world) : Prop :=
+  pfx_le X (w_ipam w) (w_ipam w') ∧ i_pools (w_ipam w') = i_pools (w_ipam w).
 
 Lemma wle_refl X w : wle X w w.
-Proof. apply pfx_le_refl. Qed.
+Proof. split; [apply pfx_le_refl|done]. Qed.
 Lemma wle_trans X w1 w2 w3 : wle X w1 w2 → wle X w2 w3 → wle X w1 w3.
-Proof. apply pfx_le_trans. Qed.
+Proof. intros [H1 P1] [H2 P2]. split; [by eapply pfx_le_trans|congruence]. Qed.
+Lemma wle_same_ipam X w w' : w_ipam w' = w_ipam w → wle X w w'.
+Proof. intros E. unfold wle. rewrite E. split; [apply pfx_le_refl|done]. Qed.
+
+Lemma release_key_pools w key o fl : i_pools (w_ipam (release_key w key o fl).1) = i_pools (w_ipam w).
+Proof.
+  unfold release_key. destruct (by_key (w_ipam w) key) as [|kv l]; [done|]. cbn [fst set_ipam w_ipam].
+  match goal with |- i_pools (release_ips ?s ?m ?or ?nf).1 = _ => destruct (release_ips s m or nf) as [s' ra] eqn:Er end.
+  by destruct (release_ips_spec _ _ _ _ _ _ Er) as [Hp _].
+Qed.
+Lemma reserve_ip_pools s oldk newk a order nfail : i_pools (reserve_ip s oldk newk a order nfail).1 = i_pools s.
+Proof. destruct (reserve_ip s oldk newk a order nfail) as [s' ra] eqn:Er. by destruct (reserve_ip_spec _ _ _ _ _ _ _ _ Er) as (_ & Hp & _). Qed.
+Lemma release_pools s key x fail : i_pools (release s key x fail).1 = i_pools s.
+Proof.
+  destruct (release s key x fail) as [s' ra] eqn:Er. cbn [fst].
+  by destruct (release_spec _ _ _ _ _ _ Er) as [(_ & e & _ & _ & _ & _ & Hp)|[_ ->]].
+Qed.
 
 Lemma release_key_wle X w key o fl : wle X w (release_key w key o fl).1.
 Proof.
+  split; [|apply release_key_pools].
   destruct (release_key w key o fl) as [w' r] eqn:E. cbn [fst].
   destruct (release_key_frame _ _ _ _ _ _ E) as [_ Hy]. intros y e' He' Hp.
   destruct (Hy y) as [Ey|(e & He & Hk & Hn)]; [|congruence]. exists e'. split; [congruence|done].
@@ -524,7 +542,8 @@ Qed.
 Lemma reserve_key_wle X w key prefix o fl : (has_prefix X prefix = true → has_prefix X key = true) →
   wle X w (reserve_key w key prefix o fl).1.
 Proof.
-  intros Himp. destruct (reserve_key w key prefix o fl) as [w' r] eqn:E. cbn [fst].
+  intros Himp. split; [|unfold reserve_key; cbn [fst set_ipam w_ipam]; apply reserve_ip_pools].
+  destruct (reserve_key w key prefix o fl) as [w' r] eqn:E. cbn [fst].
   destruct (reserve_key_frame _ _ _ _ _ _ _ E) as [_ Hy]. intros y e' He' Hp.
   destruct (Hy y) as [Ey|(e & e2 & He & Hk & He2 & Hk2 & _)].
   - exists e'. split; [congruence|done].
@@ -618,8 +637,8 @@ Proof.
     destruct (_ && _ && _)%bool; [by rewrite unassign_loop_ipam|].
     destruct (f_cloud fl); [|done].
     destruct (_ && _ && _)%bool; [by rewrite unassign_loop_ipam|done]. }
-  destruct r0 as [w1 [| |]]; cbn [fst] in *; try (unfold wle; rewrite Hr0; apply pfx_le_refl).
-  eapply wle_trans; [unfold wle; rewrite Hr0; apply pfx_le_refl|].
+  destruct r0 as [w1 [| |]]; cbn [fst] in *; try (by apply wle_same_ipam).
+  eapply wle_trans; [by apply wle_same_ipam|].
   apply unbind_any_wle. intros _. by apply pfx_imp_pod.
 Qed.
 
@@ -644,8 +663,8 @@ Proof.
   intros Hmk. destruct (_ && _)%bool; [|apply wle_refl]. destruct (bool_decide _); [apply wle_refl|].
   unfold wle. destruct (Hmk (reserve_ip (w_ipam (cloud_unassign w ip (e_node e))) (e_key e) (e_key e) free_entry_attr ocl None)
                             (cloud_unassign w ip (e_node e))) as [->| ->].
-  - apply pfx_le_refl.
-  - apply keys_eq_pfx_le. apply (reserve_ip_same_keys (w_ipam w)).
+  - split; [apply pfx_le_refl|done].
+  - split; [|apply (reserve_ip_pools (w_ipam w))]. apply keys_eq_pfx_le. apply (reserve_ip_same_keys (w_ipam w)).
 Qed.
 
 Lemma resync_section_wle P w ip o ocl fl : P ≠ [] → wle (pool_key P) w (resync_section w ip o ocl fl).1.
@@ -677,20 +696,27 @@ Proof.
              (λ r w1, match r.2 with AStuck => (w1, SStuck) | AOk => (set_ipam w1 r.1, SOk) | _ => (set_ipam w1 r.1, SErr) end)).
     intros r w1. destruct r.2; cbn [fst set_ipam w_ipam]; auto. }
   destruct s1 as [w1 [| |]]; cbn [fst] in *; try done.
-  eapply wle_trans; [exact Hs1|]. unfold wle. cbn [set_ipam w_ipam fst]. apply release_pfx_le.
+  eapply wle_trans; [exact Hs1|]. unfold wle. cbn [set_ipam w_ipam fst]. split; [apply release_pfx_le|apply release_pools].
 Qed.
 
-Lemma pool_count_release_steps_l w o P : WInv w → P ≠ [] →
+Lemma release_steps_wle w o P : WInv w → P ≠ [] →
   (match o with PEvent _ _ _ _ | PResync _ _ _ _ | PApiRelease _ _ _ _ => True | _ => False end) →
-  (pool_count (w_ipam (pstep w o).1) P <= pool_count (w_ipam w) P)%nat.
+  wle (pool_key P) w (pstep w o).1.
 Proof.
-  intros HW HP Ho. rewrite !pool_count_cnt. apply pfx_le_cnt.
+  intros HW HP Ho.
   destruct o as [e|key nodes orc fl|ns name uid node orc fl|n orc oun fl|ip orc ocl fl|k ip ocl fl|key fl|io|conf]; try done.
   - by apply event_step_wle.
   - cbn [pstep]. pose proof (resync_section_wle P w ip orc ocl fl HP) as H.
     destruct (resync_section w ip orc ocl fl) as [w' [| |]]; done.
   - cbn [pstep]. pose proof (api_release_section_wle (pool_key P) w k ip ocl fl) as H.
     destruct (api_release_section w k ip ocl fl) as [w' [| |]]; done.
+Qed.
+
+Lemma pool_count_release_steps_l w o P : WInv w → P ≠ [] →
+  (match o with PEvent _ _ _ _ | PResync _ _ _ _ | PApiRelease _ _ _ _ => True | _ => False end) →
+  (pool_count (w_ipam (pstep w o).1) P <= pool_count (w_ipam w) P)%nat.
+Proof.
+  intros HW HP Ho. rewrite !pool_count_cnt. apply pfx_le_cnt. by apply (release_steps_wle w o P).
 Qed.
 
 (** * Bind *)
@@ -866,4 +892,245 @@ Proof.
   apply bind_alloc_pools in Ealloc; [|done].
   destruct oips as [ips|]; [|done].
   destruct (bind_tail_keys_eq w1 l ns name uid node ips (somes slots) fl a) as [_ Hp]. cbv zeta in Hp. congruence.
+Qed.
+
+(** * pod-IP sync *)
+Lemma alloc_specific_not_free s key x a fail : x ∉ i_unalloc s → alloc_specific s key x a fail = (s, AErr).
+Proof. intros Hx. unfold alloc_specific. by destruct (decide (x ∈ i_unalloc s)). Qed.
+
+Lemma sync_ips_no_free p fl : ∀ ips idx w, (∀ x, x ∈ ips → x ∉ i_unalloc (w_ipam w)) →
+  w_ipam (sync_ips w p ips fl idx) = w_ipam w.
+Proof.
+  induction ips as [|x rest IH]; intros idx w Hfree; [done|]. cbn [sync_ips].
+  assert (∀ y, y ∈ rest → y ∉ i_unalloc (w_ipam w)) as Hrest by (intros y Hy; apply Hfree; by right).
+  destruct (by_ip (w_ipam w) x) as [e|]; [|by apply IH].
+  destruct (Keys.is_empty (e_key e)); [|by apply IH].
+  rewrite alloc_specific_not_free by (apply Hfree; by left). cbn [fst]. rewrite set_ipam_self. by apply IH.
+Qed.
+
+Lemma sync_ips_other p fl X : has_prefix X (pod_key p) = false → ∀ ips idx w, Inv2 (w_ipam w) →
+  Inv2 (w_ipam (sync_ips w p ips fl idx)) ∧ cnt (w_ipam (sync_ips w p ips fl idx)) X = cnt (w_ipam w) X ∧
+  i_pools (w_ipam (sync_ips w p ips fl idx)) = i_pools (w_ipam w).
+Proof.
+  intros Hnp. induction ips as [|x rest IH]; intros idx w HI; [done|]. cbn [sync_ips].
+  destruct (by_ip (w_ipam w) x) as [e|]; [|by apply IH].
+  destruct (Keys.is_empty (e_key e)); [|by apply IH].
+  set (a := {| a_policy := policy_of p; a_node := pd_node p; a_uid := pd_uid p |}).
+  pose proof (inv2_alloc_specific (w_ipam w) (pod_key p) x a (bool_decide (f_store fl = Some idx)) HI) as HI1.
+  destruct (alloc_specific (w_ipam w) (pod_key p) x a (bool_decide (f_store fl = Some idx))) as [s' ra] eqn:Ea. cbn [fst] in *.
+  destruct (IH (S idx) (set_ipam w s')) as (H1 & H2 & H3); [done|]. cbn [set_ipam w_ipam] in *.
+  apply alloc_specific_spec in Ea as [(_ & Hx & Hal & _ & Hp)|(_ & ->)]; [|done].
+  split_and!; [done| |congruence]. rewrite H2. eapply cnt_insert_other; [exact Hal|done|].
+  intros e0 He0. destruct HI as [HIi _]. rewrite (inv_disj _ HIi x Hx) in He0. done.
+Qed.
+
+Lemma sync_ips_pools p fl : ∀ ips idx w, i_pools (w_ipam (sync_ips w p ips fl idx)) = i_pools (w_ipam w).
+Proof.
+  induction ips as [|x rest IH]; intros idx w; [done|]. cbn [sync_ips].
+  destruct (by_ip (w_ipam w) x) as [e|]; [|by apply IH].
+  destruct (Keys.is_empty (e_key e)); [|by apply IH].
+  rewrite IH. cbn [set_ipam w_ipam].
+  match goal with |- i_pools (alloc_specific ?s ?k ?y ?a ?f).1 = _ => destruct (alloc_specific s k y a f) as [s' ra] eqn:Ea end.
+  by apply alloc_specific_spec in Ea as [(_ & _ & _ & _ & Hp)|(_ & ->)].
+Qed.
+
+(** the informer's delivery never changes the allocation tables of a world that satisfies the invariant: a Running
+    truth pod's annotated IPs are allocated (C04), so there is nothing to re-adopt *)
+Lemma informer_sync_ipam w key : WInv w → w_ipam (informer_sync w key) = w_ipam w.
+Proof.
+  intros HW. unfold informer_sync. destruct (w_pods w !! key) as [p|] eqn:Ep; destruct (w_lister w !! key) as [old|]; try done.
+  destruct (negb (str_eqb _ _)); [done|]. destruct (_ && _)%bool; [done|].
+  unfold sync_pod_ip. destruct (pd_phase p =? 1) eqn:Eph; [|done].
+  rewrite sync_ips_no_free; [done|]. cbn [set_lister w_ipam]. intros x Hx Hfree.
+  assert (live_bound p) as Hlb.
+  { split; [|intros E; rewrite E in Hx; by apply elem_of_nil in Hx]. unfold finished. apply N.eqb_eq in Eph. by rewrite Eph. }
+  destruct (wi_owned w HW key p Ep Hlb) as [Ho _]. destruct (Ho x Hx) as (e & He & _).
+  destruct (wi_ipam w HW) as [HI _]. rewrite (inv_disj _ HI x Hfree) in He. done.
+Qed.
+
+Lemma env_step_ipam w e : WInv w → w_ipam (env_step w e) = w_ipam w.
+Proof.
+  intros HW. destruct e; cbn [env_step]; try done.
+  - by destruct (w_pods w !! key).
+  - by apply informer_sync_ipam.
+Qed.
+
+(** * reload and restart *)
+Lemma decode_pools_ns js ps : decode_pools js = Some ps → Forall (λ p, p_nodesubnets p ≠ []) ps.
+Proof.
+  revert ps. induction js as [|j js IH]; intros ps H; cbn [decode_pools] in H.
+  - inversion H. constructor.
+  - destruct (unmarshal_pool cur_flags j) as [p| |] eqn:Ep; try discriminate.
+    destruct (decode_pools js) as [ps'|]; [|discriminate]. inversion H; subst.
+    constructor; [|by apply IH]. apply (PoolP.wf_ns_ne _ (PoolP.accepted_wf _ _ Ep)).
+Qed.
+
+Lemma sort_pools_ns ps : Forall (λ p, p_nodesubnets p ≠ []) ps → Forall (λ p, p_nodesubnets p ≠ []) (sort_pools ps).
+Proof. unfold sort_pools. induction 1; cbn [fold_right]; [constructor|]. by apply Forall_insert_gw. Qed.
+
+Lemma configure_with_pools s ps snap df : i_pools (configure_with s ps snap df) = sort_pools ps.
+Proof. unfold configure_with. by destruct (rebuild snap (sort_pools ps)). Qed.
+
+Lemma config_step_c07 w io X : Inv2 (w_ipam w) → ns_ok (w_ipam w) →
+  (match io with OConfigure _ _ [] | ORestart _ => True | _ => False end) →
+  pfx_le X (w_ipam w) (step (w_ipam w) io).1.1 ∧ ns_ok (step (w_ipam w) io).1.1.
+Proof.
+  intros HI Hns Hio. destruct io as [conf lf [|]|conf| | | | | | | | | | |]; try done.
+  - destruct (step (w_ipam w) (OConfigure conf lf [])) as [[s' r] l] eqn:Es. cbn [fst]. split.
+    + intros y e' He' Hp. destruct (configure_no_new _ _ _ _ _ _ HI Es y e' He') as (e & He & Hk & _).
+      exists e. split; [done|]. by rewrite Hk.
+    + cbn [step] in Es. destruct (decode_pools conf) as [ps|] eqn:Ed; [|by inversion Es; subst].
+      unfold configure in Es. destruct lf; cbn [fst snd] in Es; inversion Es; subst; [done|].
+      unfold ns_ok. rewrite configure_with_pools. by apply sort_pools_ns, (decode_pools_ns conf).
+  - destruct (step (w_ipam w) (ORestart conf)) as [[s' r] l] eqn:Es. cbn [fst]. split.
+    + intros y e' He' Hp. destruct (restart_no_new _ _ _ _ _ HI Es y e' He') as (e & He & Hk & _).
+      exists e. split; [done|]. by rewrite Hk.
+    + cbn [step] in Es. destruct (decode_pools conf) as [ps|] eqn:Ed; [|by inversion Es; subst].
+      inversion Es; subst. unfold ns_ok, restart. rewrite configure_with_pools. by apply sort_pools_ns, (decode_pools_ns conf).
+Qed.
+
+(** * histories with pool requests *)
+(** what C07 assumes about a step, besides [wf_op]:
+    - bind never allocates for a pod that carries a pool annotation ([bind_no_alloc]: its key already holds an IP,
+      which is what filter guarantees when the Pool object is visible; the other case is the recorded defect K2);
+    - the periodic pod-IP sync finds no lost (free) IP of a pool pod to re-adopt;
+    - pool names in API requests are '_'-free (a name with '_' aliases the prefix of another pool: finding K4). *)
+Definition wf_c07 (w : world) (o : pop2) : Prop :=
+  match o with
+  | P1 (PBind ns name uid _ _ _) => uid ≠ [] ∧ bind_no_alloc w ns name
+  | P1 (PSyncPod key _) => ∀ l, w_lister w !! key = Some l → pd_pool l ≠ [] → ∀ x, x ∈ pd_ips l → x ∉ i_unalloc (w_ipam w)
+  | P1 o => wf_op w o
+  | PApiPool name _ _ _ _ => free Keys.us name
+  end.
+
+Fixpoint wf_c07_hist (w : world) (ops : list pop2) : Prop :=
+  match ops with
+  | [] => True
+  | o :: r => wf_c07 w o ∧ wf_c07_hist (pstep2 w o).1 r
+  end.
+
+(** the size in force at a step: what the Pool lister shows to a filter call of a deployment pod of the pool, what a
+    pre-allocating API request asks for, nothing for every other step *)
+Definition size_in_force (w : world) (o : pop2) (P : str) : N :=
+  match o with
+  | P1 (PFilter key _ _ _) => match w_pods w !! key with Some p => dp_pool_size w p P | None => 0 end
+  | PApiPool name size true _ _ => if bool_decide (name = P) then size else 0
+  | _ => 0
+  end.
+
+Definition CInv (w : world) : Prop := WInv w ∧ ns_ok (w_ipam w).
+
+Lemma wf_c07_wf_op w o : wf_c07 w (P1 o) → wf_op w o.
+Proof. destruct o; cbn [wf_c07 wf_op]; try done. by intros [? _]. Qed.
+
+Lemma cinv_init provider nodes : CInv (world0 provider nodes).
+Proof. split; [apply winv_init|constructor]. Qed.
+
+Lemma pool_key_nil_noprefix P : P ≠ [] → has_prefix (pool_key P) (pool_key []) = false.
+Proof. intros HP. rewrite (pool_key_eq P HP). reflexivity. Qed.
+
+Lemma c07_step w o P : CInv w → wf_c07 w o → P ≠ [] → free Keys.us P →
+  CInv (pstep2 w o).1 ∧
+  (N.of_nat (pool_count (w_ipam (pstep2 w o).1) P) <= N.max (N.of_nat (pool_count (w_ipam w) P)) (size_in_force w o P))%N.
+Proof.
+  intros [HW Hns] Hwf HP FP. destruct o as [o|name size pre picks nfail].
+  - (* a step of the plugin model *)
+    pose proof (winv_step w o HW (wf_c07_wf_op w o Hwf)) as HW'.
+    cbn [pstep2 fst]. rewrite !pool_count_cnt.
+    destruct (wi_ipam w HW) as [HIi HIr].
+    assert (∀ w', wle (pool_key P) w w' → ns_ok (w_ipam w') ∧
+              (N.of_nat (cnt (w_ipam w') (pool_key P)) <= N.max (N.of_nat (cnt (w_ipam w) (pool_key P))) (size_in_force w (P1 o) P))%N) as Hwle.
+    { intros w' [Hle Hp]. split; [unfold ns_ok; by rewrite Hp|]. apply pfx_le_cnt in Hle. lia. }
+    assert (∀ w', w_ipam w' = w_ipam w → ns_ok (w_ipam w') ∧
+              (N.of_nat (cnt (w_ipam w') (pool_key P)) <= N.max (N.of_nat (cnt (w_ipam w) (pool_key P))) (size_in_force w (P1 o) P))%N) as Hsame.
+    { intros w' E. apply Hwle. by apply wle_same_ipam. }
+    cut (ns_ok (w_ipam (pstep w o).1) ∧
+         (N.of_nat (cnt (w_ipam (pstep w o).1) (pool_key P)) <= N.max (N.of_nat (cnt (w_ipam w) (pool_key P))) (size_in_force w (P1 o) P))%N).
+    { intros [? ?]. done. }
+    destruct o as [e|key nodes orc fl|ns name uid node orc fl|n orc oun fl|ip orc ocl fl|k ip ocl fl|key fl|io|conf].
+    + apply Hsame. cbn [pstep fst]. by apply env_step_ipam.
+    + cbn [pstep size_in_force]. destruct (w_pods w !! key) as [p|] eqn:Ep; [|cbn [fst]; split; [done|lia]].
+      destruct (wi_pods w HW key p Ep) as [_ W].
+      destruct (filter_section w p nodes orc fl) as [w' r] eqn:Ef.
+      assert (ns_ok (w_ipam w') ∧
+              (N.of_nat (cnt (w_ipam w') (pool_key P)) <= N.max (N.of_nat (cnt (w_ipam w) (pool_key P))) (dp_pool_size w p P))%N) as Hgoal;
+        [|by destruct r].
+      split; [|rewrite <- !pool_count_cnt; by eapply filter_cnt_bound].
+      apply filter_section_frame in Ef as [->|(sn & a & ch & fail & i' & _ & -> & [Hal|[ox Hal]])]; [done|..];
+        cbn [set_ipam w_ipam]; unfold ns_ok.
+      * apply alloc_with_key_spec in Hal as [(_ & x & e & _ & _ & _ & _ & _ & ->)|[? _]]; done.
+      * apply alloc_in_subnet_spec in Hal as [(_ & x & _ & _ & _ & _ & _ & ->)|[? _]]; done.
+    + cbn [pstep size_in_force]. destruct Hwf as [Hu Hna].
+      pose proof (bind_section_pools w ns name uid node orc fl HIi) as Hp.
+      destruct (bind_section true true w ns name uid node orc fl) as [w' r] eqn:Eb. cbn [fst] in Hp.
+      pose proof (bind_c07_cnt _ _ _ _ _ _ _ _ _ P HW Hu Hna HP Eb) as Hc. rewrite !pool_count_cnt in Hc.
+      assert (ns_ok (w_ipam w') ∧
+              (N.of_nat (cnt (w_ipam w') (pool_key P)) <= N.max (N.of_nat (cnt (w_ipam w) (pool_key P))) 0)%N) as Hgoal;
+        [|by destruct r].
+      split; [unfold ns_ok; by rewrite Hp|lia].
+    + apply Hwle. by apply release_steps_wle.
+    + apply Hwle. by apply release_steps_wle.
+    + apply Hwle. by apply release_steps_wle.
+    + cbn [pstep size_in_force]. destruct (w_lister w !! key) as [l|] eqn:El; [|by apply Hsame]. cbn [fst].
+      destruct (wi_lister w HW key l El) as [_ W]. unfold sync_pod_ip. destruct (pd_phase l =? 1); [|by apply Hsame].
+      destruct (decide (pd_pool l = [])) as [Epl|Epl].
+      * destruct (sync_ips_other l fl (pool_key P) (pod_key_nopool l P W Epl HP) (pd_ips l) 0%nat w (wi_ipam w HW)) as (_ & Hc & Hp).
+        split; [unfold ns_ok; by rewrite Hp|]. rewrite Hc. lia.
+      * apply Hsame. apply sync_ips_no_free. by apply (Hwf l El Epl).
+    + destruct io as [conf lf df| | | | | | | | | | | |]; cbn [wf_c07 wf_op] in Hwf; try done. destruct Hwf as [-> _].
+      cbn [pstep fst set_ipam w_ipam size_in_force].
+      destruct (config_step_c07 w (OConfigure conf lf []) (pool_key P) (wi_ipam w HW) Hns I) as [Hle Hns'].
+      split; [done|]. apply pfx_le_cnt in Hle. lia.
+    + cbn [pstep fst set_ipam set_lister set_queue w_ipam size_in_force].
+      destruct (config_step_c07 w (ORestart conf) (pool_key P) (wi_ipam w HW) Hns I) as [Hle Hns'].
+      split; [done|]. apply pfx_le_cnt in Hle. lia.
+  - (* a pool request *)
+    cbn [pstep2 wf_c07 size_in_force] in *. destruct pre; cbn [fst]; [|split; [done|lia]].
+    destruct (prealloc_section w name size picks nfail) as [w' r] eqn:Ep. cbn [fst].
+    destruct (prealloc_section_spec _ _ _ _ _ _ _ HW Ep) as (HW' & Hp & Hb & _ & Hoth & _).
+    split; [split; [done|unfold ns_ok; by rewrite Hp]|].
+    destruct (bool_decide_reflect (name = P)) as [->|Hne]; [done|].
+    rewrite !pool_count_cnt, Hoth; [lia|].
+    destruct name as [|c name']; [by apply pool_key_nil_noprefix|].
+    destruct (has_prefix (pool_key P) (pool_key (c :: name'))) eqn:E; [|done].
+    apply pool_key_pool_inv in E; done.
+Qed.
+
+Lemma c07_run ops : ∀ w, CInv w → wf_c07_hist w ops → CInv (prun2 w ops).
+Proof.
+  unfold prun2. induction ops as [|o ops IH]; intros w HC Hwf; cbn [fold_left]; [done|].
+  destruct Hwf as [Ho Hr]. apply IH; [|done].
+  (* any '_'-free non-empty name will do *)
+  apply (c07_step w o (L "p")); [done|done|done|]. vm_compute. intuition discriminate.
+Qed.
+
+Lemma wf_c07_hist_app ops1 : ∀ w ops2, wf_c07_hist w (ops1 ++ ops2) → wf_c07_hist w ops1 ∧ wf_c07_hist (prun2 w ops1) ops2.
+Proof.
+  unfold prun2. induction ops1 as [|o ops1 IH]; intros w ops2 H; cbn [app wf_c07_hist fold_left] in *; [done|].
+  destruct H as [Ho Hr]. destruct (IH _ _ Hr) as [H1 H2]. done.
+Qed.
+
+(** every step of a history keeps the pool under max(current count, size in force) *)
+Lemma pool_cap_history_l w0 ops P : CInv w0 → P ≠ [] → free Keys.us P → wf_c07_hist w0 ops →
+  ∀ ops1 o ops2, ops = (ops1 ++ o :: ops2)%list →
+    let w := prun2 w0 ops1 in
+    (N.of_nat (pool_count (w_ipam (pstep2 w o).1) P) <= N.max (N.of_nat (pool_count (w_ipam w) P)) (size_in_force w o P))%N.
+Proof.
+  intros HC HP FP Hwf ops1 o ops2 -> w. apply wf_c07_hist_app in Hwf as [H1 [Ho _]].
+  apply c07_step; try done. by apply c07_run.
+Qed.
+
+(** invariant form: while every size in force is at most [S], the pool never holds more than [S] IPs *)
+Fixpoint sizes_le (S : N) (P : str) (w : world) (ops : list pop2) : Prop :=
+  match ops with
+  | [] => True
+  | o :: r => (size_in_force w o P <= S)%N ∧ sizes_le S P (pstep2 w o).1 r
+  end.
+
+Lemma pool_cap_invariant_l S P ops : ∀ w, CInv w → P ≠ [] → free Keys.us P → wf_c07_hist w ops → sizes_le S P w ops →
+  (N.of_nat (pool_count (w_ipam w) P) <= S)%N → (N.of_nat (pool_count (w_ipam (prun2 w ops)) P) <= S)%N.
+Proof.
+  unfold prun2. induction ops as [|o ops IH]; intros w HC HP FP Hwf Hsz H0; cbn [fold_left]; [done|].
+  destruct Hwf as [Ho Hr]. destruct Hsz as [Hs Hsr]. destruct (c07_step w o P HC Ho HP FP) as [HC' Hb].
+  apply IH; try done. lia.
 Qed.
